@@ -252,7 +252,34 @@ def r06_2(ctx, rep, roles):
         f = byname.get(nm)
         if f and via in byname:
             calls = [cs for cs in cg.sites[f["id"]] if cs.target == byname[via]["id"]]
-            rep.obligation(bool(calls), "C06/R06.2/%s/derivation" % nm, "%s is not derived from %s" % (nm, via), where(f),
+            okd = bool(calls)
+            if not okd and nm == "num_key_values":
+                # a counting loop of its own: the counter is incremented exactly for the entries that are not Deleted
+                engc = sym.Engine(fx)
+                seen_pol = set()
+                okd = True
+                for row in engc.table(f["id"]):
+                    if row.exit != "backedge":
+                        continue
+                    info = kv.cond_info(row, status_from=("get", "upd", "iter", "next", "values", None))
+                    incs = [e for e in row.events if e[0] == "lwrite" and e[3][0] == "op" and e[3][1] in ("Add", "AddWithOverflow") and sym.C(1) in (e[3][2], e[3][3])]
+                    incs += [e for e in row.events if e[0] == "lwrite" and e[3][0] == "proj" and e[3][1][0] == "op" and e[3][1][1] in ("Add", "AddWithOverflow") and sym.C(1) in (e[3][1][2], e[3][1][3])]
+                    ss = None
+                    for c in row.cond:
+                        if c[0] == "variant" and T.last_field(c[1]) == (VV, "status"):
+                            ss = ss if ss is not None else set(kv.STATUS_VARIANTS)
+                            names = set(c[2]) if isinstance(c[2], (tuple, list)) else {c[2]}
+                            ss = (ss & names) if c[3] else (ss - names)
+                    if ss is None:
+                        okd = False
+                        continue
+                    deleted = ss == {"Deleted"}
+                    visible = "Deleted" not in ss
+                    if not (deleted or visible) or bool(incs) != visible:
+                        okd = False
+                    seen_pol.add(visible)
+                okd = okd and seen_pol == {True, False}
+            rep.obligation(okd, "C06/R06.2/%s/derivation" % nm, "%s is not derived from %s" % (nm, via), where(f),
                            sample="%s derives from %s" % (nm, via))
     rep.instance(len(readers))
 
